@@ -104,6 +104,33 @@ func newPostSut(out *hx.Out, role string, n int) *postSut {
 	return s
 }
 
+// followUp starts the NEXT duty (slot + 1) on the same real runner - the validator keeps one runner object per
+// role for its whole life, and registrations / exits are started through their own start path.  The model begins
+// afresh (NEW): whatever the runner keeps from the earlier duty must not matter.  Only for the duties without
+// consensus (the decided state of the others is planted by newPostSut, not reached through StartNewDuty).
+func (p *postSut) followUp() *postSut {
+	if !p.pre {
+		panic("followUp: only for the duties without consensus")
+	}
+	d := *p.e.rs.duty
+	d.Slot = specSlot(p.slot + 1)
+	s := &postSut{out: p.out, e: p.e, n: p.n, q: p.q, tags: map[string]string{}, count: map[int]int{},
+		ok: map[uint64]bool{}, lvDone: map[int]bool{}, valPK: p.valPK, pre: true, slot: p.slot + 1}
+	_, s.roots = preObjects(&d)
+	p.out.Op("NEXT", "")
+	if err := p.e.r.StartNewDuty(p.e.logger, &d); err != nil {
+		panic("StartNewDuty (follow-up): " + err.Error())
+	}
+	s.seen = len(p.e.bn.subs)
+	ids := make([]string, 0, p.n)
+	for _, op := range p.e.share.Committee {
+		ids = append(ids, strconv.FormatUint(op.OperatorID, 10))
+	}
+	p.out.Op("NEW", "%s %d %d %d %d %s", p.e.rs.name, s.q, s.slot, len(s.roots), p.n, strings.Join(ids, " "))
+	p.out.Count("follow-up-duty-" + p.e.rs.name)
+	return s
+}
+
 func fakeRoot(id int) [32]byte { return sha256.Sum256([]byte(fmt.Sprintf("unexpected-root-%d", id))) }
 
 func (s *postSut) realRoot(id int) [32]byte {
@@ -432,6 +459,13 @@ func postExhaustive(out *hx.Out, roles []string, part, parts int) {
 					for _, m := range s.scenario(order, c, kind, ki) {
 						s.post(m)
 					}
+					if s.pre && kind != "none" {
+						// the next duty on the same runner: the next operator misbehaves in the same way
+						s2 := s.followUp()
+						for _, m := range s2.scenario(order, c%4+1, kind, ki+1) {
+							s2.post(m)
+						}
+					}
 					out.End()
 				}
 			}
@@ -449,6 +483,7 @@ func postRandom(out *hx.Out, seed uint64, cases int, roles []string, sizes []int
 		f := (n - 1) / 3
 		out.Case("post random seed=%d case=%d role=%s n=%d", seed, c, role, n)
 		s := newPostSut(out, role, n)
+	again:
 		ids := make([]uint64, n)
 		for i := range ids {
 			ids[i] = uint64(i + 1)
@@ -488,6 +523,10 @@ func postRandom(out *hx.Out, seed uint64, cases int, roles []string, sizes []int
 		}
 		for _, m := range seq {
 			s.post(m)
+		}
+		if s.pre && r.Chance(3, 5) { // up to a few duties in a row on the same runner
+			s = s.followUp()
+			goto again
 		}
 		out.End()
 	}
